@@ -7,7 +7,7 @@ Context {R : Type} {RR : Ring R} {CR : CRing R}.
 Add Ring Rring : Rth.
 Open Scope R_scope.
 Notation fm := (fm (R:=R)). Notation arr := (arr (R:=R)). Notation op := (op (R:=R)). Notation fac := (fac (R:=R)).
-Notation dop := (dop (R:=R)).
+Notation dop := (dop (R:=R)). Notation blk := (OpProofs.blk (R:=R)).
 Variable chol_o : nat -> fm -> fm.
 Variable lu_o : nat -> fm -> (nat -> nat) * fm * fm.
 Variable sqrt_o : R -> R.
@@ -66,10 +66,11 @@ Proof. intros W SQ G. cbn [wf] in W.
       destruct (IH W SQ) as ((A1 & A2) & (B1 & B2) & (C1 & C2) & (Ts & T1 & T2 & T3 & TF)).
       unfold tops in *. cbn [map fst snd forallb p1 p2 p3]. rewrite WP, WL, WU, SP, SL, SU, A1, A2, B1, B2, C1, C2.
       split; [split; reflexivity|]. split; [split; reflexivity|]. split; [split; reflexivity|].
-      exists (rep mu (((shape m, den (dto_op P)), (shape m, den (dto_op L))), (shape m, den (dto_op U))) ++ Ts).
-      unfold blocks in *. cbn [map concat fst snd]. rewrite !map_app, T1, T2, T3, SP, SL, SU.
+      exists (rep mu ((((shape m, den (dto_op P)) : blk), ((shape m, den (dto_op L)) : blk), ((shape m, den (dto_op U)) : blk)) : blk * blk * blk) ++ Ts).
+      unfold blocks in *. cbn [map concat fst snd]. rewrite !map_app.
       assert (RM : forall (f : blk * blk * blk -> blk) (x : blk * blk * blk) k, map f (rep k x) = rep k (f x)) by (intros f x k; induction k; cbn [rep map]; congruence).
-      rewrite !RM. cbn [b1 b2 b3 fst snd]. repeat split; auto.
+      rewrite !RM. cbn [b1 b2 b3 fst snd]. rewrite SP, SL, SU.
+      split; [f_equal; exact T1|]. split; [f_equal; exact T2|]. split; [f_equal; exact T3|].
       apply Forall2_app; [|exact TF]. apply Forall2_rep. exists (fst (shape m)). cbn [fst snd]. pose proof (sq_shape m S1) as Sh. repeat split; auto. }
   destruct H as ((A1 & A2) & (B1 & B2) & (C1 & C2) & (Ts & T1 & T2 & T3 & TF)).
   destruct (bd_plu Ts (blocks ms) TF) as (R1 & C1' & R2 & C2' & R3 & C3' & CA & PP & LL & UU & F).
